@@ -80,6 +80,10 @@ AXES2 = [(1, 0)]
 SHAPES2 = [(4, 3), (2, 6), (12,), (6, 2)]
 
 
+_DT = ["int8", "int16", "int32", "int64", "uint8", "uint16", "float32", "float64", "complex64", "complex128"]
+MEMO_KEYS = [(d,) for d in _DT] + [(a, b) for a in _DT[:4] for b in _DT[6:9]]     # 22 distinct dtype tuples
+
+
 def make_arrays():
     """array 0: 3-d (2,3,4); array 1: 2-d (3,4), fill 0; both cache-enabled; integer data"""
     import numpy as np
@@ -233,19 +237,22 @@ def _make_execution(scn):
         real_call(arrs, memo, s)
     before = arrays_bytes(arrs)
     outs = [[] for _ in scn["threads"]]
+    excs = []
 
     def mk(i, prog):
         def body():
-            for s in prog:
+            for n, s in enumerate(prog):
                 try:
                     outs[i].append(digest(real_call(arrs, memo, s)))
                 except Exception as ex:  # noqa: BLE001
                     outs[i].append(code_of_exception(ex))
+                    excs.append({"thread": i, "call": n, "spec": _jsonable_spec(s), "exception": type(ex).__name__,
+                                 "message": str(ex)[:160]})
         return body
     fns = [mk(i, p) for i, p in enumerate(scn["threads"])]
 
     def collect():
-        return [list(o) for o in outs], arrays_bytes(arrs) == before
+        return [list(o) for o in outs], arrays_bytes(arrs) == before, list(excs)
     return fns, collect
 
 
@@ -259,9 +266,9 @@ def impl_explore(job):
     execs = []
     st = None
     deadline = time.time() + job.get("seconds", 60)
-    for ex, (outs, same), st in sched.explore(lambda: _make_execution(scn), pts, max_execs=job.get("max_execs"),
+    for ex, (outs, same, excs), st in sched.explore(lambda: _make_execution(scn), pts, max_execs=job.get("max_execs"),
                                               root=os.path.join(vlib.REPO, "sparse"), deadline=deadline):
-        execs.append({"sched": ex.trace, "outs": outs, "same": same, "stalled": ex.stalled})
+        execs.append({"sched": ex.trace, "outs": outs, "same": same, "stalled": ex.stalled, "excs": excs})
     return {"table": [[list(map(_jsonable, k)), v] for k, v in tbl.items()], "execs": execs,
             "complete": bool(st and st.complete)}
 
@@ -280,13 +287,17 @@ def impl_random(job):
         r = random.Random(rng.random())
         s = sched.Scheduler(pts, root=os.path.join(vlib.REPO, "sparse"))
         ex = s.run(fns, [], chooser=lambda en, step: r.choice(en))
-        outs, same = collect()
-        execs.append({"sched": ex.trace, "outs": outs, "same": same, "stalled": ex.stalled})
+        outs, same, excs = collect()
+        execs.append({"sched": ex.trace, "outs": outs, "same": same, "stalled": ex.stalled, "excs": excs})
     return {"table": [[list(map(_jsonable, k)), v] for k, v in tbl.items()], "execs": execs, "complete": True}
 
 
 def _jsonable(e):
     return list(e) if isinstance(e, tuple) else e
+
+
+def _jsonable_spec(s):
+    return [_jsonable(e) for e in s]
 
 
 def impl_schedule(job):
@@ -299,10 +310,10 @@ def impl_schedule(job):
     fns, collect = _make_execution(scn)
     s = sched.Scheduler(pts, root=os.path.join(vlib.REPO, "sparse"))
     ex = s.run(fns, job["sched"])
-    outs, same = collect()
+    outs, same, excs = collect()
     lab = {v: k for k, v in _points().items()}
     return {"table": [[list(map(_jsonable, k)), v] for k, v in tbl.items()],
-            "execs": [{"sched": ex.trace, "outs": outs, "same": same, "stalled": ex.stalled,
+            "execs": [{"sched": ex.trace, "outs": outs, "same": same, "stalled": ex.stalled, "excs": excs,
                        "labels": [lab.get(l, l) if not isinstance(l, str) else l for l in ex.labels]}],
             "complete": True}
 
@@ -483,6 +494,11 @@ def scenarios(tier, rng):
         dict(name="T_witness_shape", setup=[], threads=[[T(0, a1)], [T(0, a0), T(0, a2)]]),
         dict(name="T_full_deque_hit_vs_evict", setup=[T(0, a0), T(0, a1), T(0, a2)],
              threads=[[T(0, a0)], [T(0, AXES3[4])]]),
+        dict(name="T_hit_vs_hit", setup=[T(0, a0)], threads=[[T(0, a0)], [T(0, a0)]]),
+        dict(name="T_hit_vs_hit_full", setup=[T(0, a0), T(0, a1), T(0, a2)], threads=[[T(0, a1)], [T(0, a1)]]),
+        dict(name="R_hit_vs_hit", setup=[R(0, s0)], threads=[[R(0, s0)], [R(0, s0)]]),
+        dict(name="R_full_deque_hit_vs_evict", setup=[R(0, s0), R(0, s1), R(0, s2)],
+             threads=[[R(0, s0)], [R(0, SHAPES3[3])]]),
         dict(name="T_prefilled2_1x1", setup=[T(0, a0), T(0, a1)], threads=[[T(0, a2)], [T(0, AXES3[3])]]),
         dict(name="R_witness_shape", setup=[], threads=[[R(0, s0)], [R(0, s1), R(0, s2)]]),
         dict(name="R_fresh_2x1", setup=[], threads=[[R(0, s0), R(0, s0)], [R(0, s1)]]),
@@ -495,6 +511,10 @@ def scenarios(tier, rng):
         dict(name="A_pre_csc", setup=[A(1, "csc")], threads=[[A(1, "csr"), A(1, "csr")], [A(1, "csr"), A(1, "csc")]]),
         # --- dict memo
         dict(name="M_2x2", setup=[], threads=[[M("int64", "float64"), M("int8",)], [M("int64", "float64"), M("int64", "float64")]]),
+        dict(name="M_preloaded16_hit_vs_miss", setup=[M(*k) for k in MEMO_KEYS[:16]],
+             threads=[[M(*MEMO_KEYS[0])], [M(*MEMO_KEYS[16])]]),
+        dict(name="M_preloaded17_hit_vs_2miss", setup=[M(*k) for k in MEMO_KEYS[:17]],
+             threads=[[M(*MEMO_KEYS[3])], [M(*MEMO_KEYS[17]), M(*MEMO_KEYS[3])]]),
         dict(name="M_3x1", setup=[], threads=[[M("int64",), M("int8",), M("int64",)], [M("int64",)]]),
         # --- all three kinds of shared state together
         dict(name="mix_TA_M", setup=[], threads=[[T(1, (1, 0)), A(1, "csr")], [M("int64",), P(1, "abs")]]),
@@ -673,7 +693,7 @@ def campaign(build, tier, seed, report, budget=1):
         if code == 0:
             continue
         base = {"property": "C13", "case": {"scenario": scn, "schedule": e["sched"], "source": kind},
-                "impl": {"outcomes": e["outs"], "operands_unchanged": e["same"]},
+                "impl": {"outcomes": e["outs"], "operands_unchanged": e["same"], "exceptions": e.get("excs", [])},
                 "replay_py": d13_replay_py(scn, e["sched"])}
         if code in (3, 5):
             d13_count += 1
@@ -689,8 +709,11 @@ def campaign(build, tier, seed, report, budget=1):
         elif code == 4:
             viol.append(dict(base, op="operand_mutated", kind="value", clause=None, what="an operand's bytes changed"))
         else:
-            viol.append(dict(base, op="protocol_call", kind="value", clause=None,
-                             what="a call's outcome differs from its sequential value in a way the model does not predict"))
+            exn = sorted({x["exception"] for x in e.get("excs", [])})
+            viol.append(dict(base, op="protocol_call" + ("_" + "_".join(exn) if exn else ""), kind="value", clause=None,
+                             what="under this schedule a call " + (f"raised {', '.join(exn)} (" +
+                                  "; ".join(x["message"].splitlines()[0][:80] for x in e.get("excs", [])[:2] if x["message"]) + ")" if exn else
+                                  "returned another value") + " although run alone it returns its sequential value"))
     # the witness must behave as the proved verdict says
     if witness_confirmed is not None:
         if not src_all_snapshot and not witness_confirmed["raised_on_real_code"]:
